@@ -12,7 +12,7 @@ TARGET = os.path.join(CACHE, 'target')
 REPO = '/repo'
 NPROC = min(16, os.cpu_count() or 4)
 
-ENV = dict(os.environ, CARGO_NET_OFFLINE='true', CARGO_TARGET_DIR=TARGET)
+ENV = dict(os.environ, CARGO_NET_OFFLINE='true', CARGO_TARGET_DIR=TARGET, RUST_BACKTRACE='0')
 
 AXIOM_ALLOW = {
     # standard-library axioms, allowed only for the properties named
@@ -129,12 +129,14 @@ def _run_chunk(cmd, lines, timeout, env=None, limit_as=None, stack_unlimited=Fal
     if stack_unlimited:
         pre += 'ulimit -s unlimited 2>/dev/null || ulimit -s 1000000; '
     while pos < len(lines):
+        import tempfile
+        errf = tempfile.TemporaryFile()
         if pre:
             p = subprocess.Popen(['/bin/sh', '-c', pre + 'exec "$@"', 'sh'] + cmd, stdin=subprocess.PIPE,
-                                 stdout=subprocess.PIPE, stderr=subprocess.DEVNULL, env=env)
+                                 stdout=subprocess.PIPE, stderr=errf, env=env)
         else:
             p = subprocess.Popen(cmd, stdin=subprocess.PIPE, stdout=subprocess.PIPE,
-                                 stderr=subprocess.DEVNULL, env=env)
+                                 stderr=errf, env=env)
         todo = lines[pos:]
         def feed(p=p, todo=todo):
             try:
@@ -170,7 +172,21 @@ def _run_chunk(cmd, lines, timeout, env=None, limit_as=None, stack_unlimited=Fal
                 chunk = os.read(fd, 1 << 16)
                 if not chunk:
                     p.wait()
-                    outs.append('("abort" %d)' % (p.returncode if p.returncode is not None else -999))
+                    why = 'unknown'
+                    try:
+                        errf.seek(0, 2); n = errf.tell(); errf.seek(max(0, n - 8000)); tail = errf.read().decode('utf-8', 'replace')
+                        m = re.search(r'memory allocation of (\d+) bytes failed', tail)
+                        if 'overflowed its stack' in tail:
+                            why = 'stack-overflow'
+                        elif m:
+                            why = 'alloc-%s' % m.group(1)
+                        elif 'capacity overflow' in tail:
+                            why = 'capacity-overflow'
+                        elif tail.strip():
+                            why = re.sub(r'[^A-Za-z0-9 _.:-]', ' ', tail.strip().splitlines()[-1])[:80]
+                    except Exception:
+                        pass
+                    outs.append('("abort" %d "%s")' % (p.returncode if p.returncode is not None else -999, why))
                     got += 1
                     dead = True
                     break
@@ -180,10 +196,11 @@ def _run_chunk(cmd, lines, timeout, env=None, limit_as=None, stack_unlimited=Fal
                 p.wait(timeout=10)
             except Exception:
                 p.kill()
+        errf.close()
         pos += got
     return outs
 
-def run_batch(cmd, lines, timeout=10, workers=NPROC, env=None, limit_as=None, stack_unlimited=False, min_chunk=50):
+def run_batch(cmd, lines, timeout=10, workers=NPROC, env=ENV, limit_as=None, stack_unlimited=False, min_chunk=50):
     if not lines:
         return []
     nchunks = max(1, min(workers, len(lines) // min_chunk or 1))
@@ -215,20 +232,128 @@ def sh(cmd, timeout=1800, cwd=None, env=None):
                        stdout=subprocess.PIPE, stderr=subprocess.STDOUT)
     return p.returncode, p.stdout.decode('utf-8', 'replace')
 
-def ensure_makefile():
-    mk = os.path.join(COQ, 'Makefile')
-    cp = os.path.join(COQ, '_CoqProject')
-    if not os.path.exists(mk) or os.path.getmtime(mk) < os.path.getmtime(cp):
-        rc, out = sh('coq_makefile -f _CoqProject -o Makefile', cwd=COQ)
-        if rc != 0:
-            raise RuntimeError('coq_makefile failed: ' + out)
+COQ_WARN = '-notation-overridden,-deprecated-hint-without-locality,-deprecated-instance-without-locality'
+
+def _coq_files():
+    files = []
+    for line in open(os.path.join(COQ, '_CoqProject')):
+        line = line.strip()
+        if line.endswith('.v') and not line.startswith('-'):
+            if os.path.exists(os.path.join(COQ, line)) and line not in files:
+                files.append(line)
+    return files
+
+def _coq_deps(files):
+    """coqdep over the project: {file.v: [dep.v, ...]} (project-internal deps only)"""
+    rc, out = sh(['coqdep', '-Q', '.', 'FendV'] + files, cwd=COQ, timeout=300)
+    deps = {}
+    for line in out.splitlines():
+        if ':' not in line or line.startswith('***') or line.startswith('Warning'):
+            continue
+        lhs, rhs = line.split(':', 1)
+        tg = [t for t in lhs.split() if t.endswith('.vo')]
+        if not tg:
+            continue
+        v = tg[0][:-1]
+        if v.startswith('./'):
+            v = v[2:]
+        ds = []
+        for d in rhs.split():
+            if d.endswith('.vo'):
+                d = d[:-1]
+                if d.startswith('./'):
+                    d = d[2:]
+                if d != v and not os.path.isabs(d):
+                    ds.append(d)
+        deps[v] = ds
+    return deps
+
+def _stale(v, deps):
+    vo = os.path.join(COQ, v + 'o')
+    if not os.path.exists(vo):
+        return True
+    t = os.path.getmtime(vo)
+    if os.path.getmtime(os.path.join(COQ, v)) > t:
+        return True
+    for d in deps.get(v, []):
+        dvo = os.path.join(COQ, d + 'o')
+        if not os.path.exists(dvo) or os.path.getmtime(dvo) > t:
+            return True
+    return False
 
 def coq_make(targets, timeout=3000):
-    """full .vo build of the given targets (relative to coq/)"""
-    with Lock('coq.lock'):
-        ensure_makefile()
-        rc, out = sh(['make', '-j%d' % NPROC] + targets, cwd=COQ, timeout=timeout)
-    return rc, out
+    """Full .vo build of the given targets (relative to coq/, 'X.vo'; none =
+    every file of _CoqProject).  A small make replacement: dependencies from
+    coqdep, one coqc per out-of-date file, a per-file lock (so that several
+    checks / developers can build different files of the same tree at the
+    same time), independent files in parallel.  Returns (rc, output)."""
+    files = _coq_files()
+    deps = _coq_deps(files)
+    want = [t[:-1] if t.endswith('.vo') else t for t in targets] or files
+    for w in want:
+        if w not in deps and not os.path.exists(os.path.join(COQ, w)):
+            return 2, 'no such Coq file: %s\n' % w
+    # cone, topologically ordered
+    order = []
+    seen = set()
+    def visit(v):
+        if v in seen:
+            return
+        seen.add(v)
+        for d in deps.get(v, []):
+            visit(d)
+        order.append(v)
+    for w in want:
+        visit(w)
+    log = []
+    failed = {}
+    done = {}
+    lock = threading.Lock()
+    sem = threading.Semaphore(NPROC)
+    t_end = time.time() + timeout
+    def build(v):
+        # wait for deps
+        for d in deps.get(v, []):
+            done[d].wait()
+            if d in failed:
+                failed[v] = 'dependency %s failed' % d
+                done[v].set()
+                return
+        try:
+            lk = os.path.join(CACHE, 'coqlocks', v.replace('/', '__') + '.lock')
+            os.makedirs(os.path.dirname(lk), exist_ok=True)
+            with open(lk, 'w') as lf:
+                fcntl.flock(lf, fcntl.LOCK_EX)
+                try:
+                    if _stale(v, deps):
+                        left = max(60, t_end - time.time())
+                        with sem:
+                            rc, out = sh(['coqc', '-q', '-Q', '.', 'FendV', '-w', COQ_WARN, v], cwd=COQ, timeout=left)
+                        with lock:
+                            log.append('COQC %s\n%s' % (v, out))
+                        if rc != 0:
+                            failed[v] = out
+                            try:
+                                os.remove(os.path.join(COQ, v + 'o'))
+                            except OSError:
+                                pass
+                finally:
+                    fcntl.flock(lf, fcntl.LOCK_UN)
+        except Exception as e:
+            failed[v] = repr(e)
+            with lock:
+                log.append('COQC %s\nbuild tool error: %r' % (v, e))
+        done[v].set()
+    for v in order:
+        done[v] = threading.Event()
+    with ThreadPoolExecutor(max_workers=max(NPROC, len(order))) as ex:
+        list(ex.map(build, order))
+    out = '\n'.join(log)
+    if failed:
+        first = [v for v in order if v in failed][0]
+        out += '\nFAILED: %s\n' % ', '.join(v for v in order if v in failed)
+        return 1, out
+    return 0, out
 
 AREAS = {
     # area -> (extraction target, Run module, run function)
@@ -243,25 +368,30 @@ def build_model(area):
     rc, out = coq_make([tgt])
     if rc != 0:
         raise RuntimeError('model build failed for area %s:\n%s' % (area, out[-3000:]))
-    with Lock('ocaml.lock'):
+    with Lock('ocaml_%s.lock' % area):
         rc, out = sh([os.path.join(ROOT, 'tools', 'build_model.sh'), area], timeout=900)
     if rc != 0:
         raise RuntimeError('ocaml build failed for area %s:\n%s' % (area, out[-3000:]))
     return os.path.join(CACHE, 'modelrun', area, 'modelrun')
 
 _impl_built = {}
-def build_impl(area, profile='debug'):
-    """cargo build of the harness binary h_<area> against /repo's current working tree"""
-    key = (area, profile)
+def build_impl(area, profile='debug', plain=False):
+    """cargo build of the harness binary h_<area> (or, plain=True, p_<area> from
+    harness_plain/: fend-core WITHOUT the verif-hooks feature) against /repo's
+    current working tree"""
+    key = (area, profile, plain)
     if key in _impl_built:
         return _impl_built[key]
-    cmd = ['cargo', 'build', '--offline', '--manifest-path', os.path.join(ROOT, 'harness', 'Cargo.toml'), '--bin', 'h_' + area]
+    crate = 'harness_plain' if plain else 'harness'
+    binname = ('p_' if plain else 'h_') + area
+    tdir = os.path.join(CACHE, 'target-plain') if plain else TARGET
+    cmd = ['cargo', 'build', '--offline', '--manifest-path', os.path.join(ROOT, crate, 'Cargo.toml'), '--bin', binname]
     if profile == 'release':
         cmd.append('--release')
-    rc, out = sh(cmd, timeout=1800)
+    rc, out = sh(cmd, timeout=1800, env=dict(ENV, CARGO_TARGET_DIR=tdir))
     if rc != 0:
         raise RuntimeError('cargo build of harness failed:\n' + out[-4000:])
-    path = os.path.join(TARGET, profile, 'h_' + area)
+    path = os.path.join(tdir, profile, binname)
     _impl_built[key] = path
     return path
 
@@ -407,8 +537,8 @@ class Check:
         return res
 
     # ---- runners ---------------------------------------------------------
-    def impl(self, area, lines, timeout=None, profile='debug', workers=NPROC, limit_as=4 << 30):
-        exe = build_impl(area, profile)
+    def impl(self, area, lines, timeout=None, profile='debug', workers=NPROC, limit_as=4 << 30, plain=False):
+        exe = build_impl(area, profile, plain)
         if timeout is None:
             timeout = 10 if self.tier == 'quick' else 60
         outs = run_batch([exe], lines, timeout=timeout, workers=workers, limit_as=limit_as)
